@@ -121,6 +121,26 @@ theorem mzi_probabilities (φ : ℝ) :
   rw [mzi_amp0, mzi_amp1]
   exact ⟨normSq_amp0 φ, normSq_amp1 φ⟩
 
+theorem mzi_amp01 (φ : ℝ) : mzi φ 0 1 = Complex.I * (Complex.exp (Complex.I * φ) + 1) / 2 := by
+  simp only [mzi, B, P, Matrix.mul_apply, Fin.sum_univ_two]
+  simp
+  linear_combination (Complex.I * Complex.exp (Complex.I * φ) / 4 + Complex.I / 4) * sqrt_two_sq
+
+theorem mzi_amp11 (φ : ℝ) : mzi φ 1 1 = -(Complex.exp (Complex.I * φ) - 1) / 2 := by
+  simp only [mzi, B, P, Matrix.mul_apply, Fin.sum_univ_two]
+  simp
+  have hI : Complex.I * Complex.I = -1 := Complex.I_mul_I
+  linear_combination (Complex.I * Complex.I * Complex.exp (Complex.I * φ) / 4 + 1 / 4) * sqrt_two_sq
+    + (Complex.exp (Complex.I * φ) / 2) * hI
+
+/-- a photon entering the *second* port: the probabilities are exchanged -/
+theorem mzi_probabilities_second_port (φ : ℝ) :
+    Complex.normSq (mzi φ 0 1) = Real.cos (φ / 2) ^ 2 ∧ Complex.normSq (mzi φ 1 1) = Real.sin (φ / 2) ^ 2 := by
+  rw [mzi_amp01, mzi_amp11]
+  refine ⟨normSq_amp1 φ, ?_⟩
+  rw [neg_div, Complex.normSq_neg]
+  exact normSq_amp0 φ
+
 section intertwine
 variable {m k : Type} [Fintype m] [DecidableEq m] [Fintype k] [DecidableEq k]
 
